@@ -276,7 +276,7 @@ func genTrees(r *core.Run, jobs []tlcJob, workersEach int) []treeCase {
 		name := fmt.Sprintf("JsSyntaxGen.%s%d.s%d.cfg", j.family, j.size, j.shard)
 		var local []treeCase
 		res := tlcrun.MustHold(r, tlcrun.Options{
-			Module: "JsSyntaxGen", Config: base, Workers: workersEach, TimeoutSec: r.Pick(600, 2400), Seed: j.seed,
+			Module: "JsSyntaxGen", Config: base, Workers: workersEach, TimeoutSec: r.Pick(1800, 3600), Seed: j.seed,
 			XssMB: 64, HeapGB: 6,
 			Files: map[string]string{base: j.cfgText()},
 			OnCase: func(raw []byte) {
